@@ -651,6 +651,19 @@ def rule_degenerate_continue(prog, fixture=False):
                 for nxt in stmts[k + 1:]:
                     after |= _writes_in(nxt)
                 stuck = (deps & after) - on_path
+                # only a *table cursor* counts: a variable used as a subscript in what the condition reads
+                index_vars = set()
+                srcs = [cond] + [locals_before[d] for d in locals_before if d in flow.decl_ids(cond) or True]
+                for src in srcs:
+                    for x in walk(src):
+                        idx = None
+                        if x.get("k") == "ArraySubscriptExpr" and len(x.get("c", [])) == 2:
+                            idx = x["c"][1]
+                        elif x.get("k") == "CXXOperatorCallExpr" and x.get("op") == "[]" and len(x.get("c", [])) == 3:
+                            idx = x["c"][2]
+                        if idx is not None:
+                            index_vars |= flow.decl_ids(idx)
+                stuck &= index_vars
                 ok = bool(deps & on_path) or not stuck
                 names = sorted({x.get("n") for x in walk(body) if x.get("k") == "DeclRefExpr" and x.get("d") in stuck})
                 r.add(key, fn.loc(st), ok, "the condition changes from one iteration to the next" if ok else
